@@ -369,14 +369,27 @@ static void emit_literal(WorkList *list, const char *str) {
 
 static void emit_formatted(WorkList *list, const char *fmt, ...) {
     char buffer[2048];
+    char *formatted = NULL;
     va_list args;
     va_start(args, fmt);
-    vsnprintf(buffer, sizeof(buffer), fmt, args);
+    int needed = vsnprintf(buffer, sizeof(buffer), fmt, args);
     va_end(args);
-    
+
+    if (needed >= (int)sizeof(buffer)) {
+        /* Output longer than the stack buffer (e.g. a long string literal): format again on the heap */
+        formatted = malloc((size_t)needed + 1);
+        if (formatted) {
+            va_start(args, fmt);
+            vsnprintf(formatted, (size_t)needed + 1, fmt, args);
+            va_end(args);
+        }
+    } else {
+        formatted = strdup(buffer);
+    }
+
     WorkItem item;
     item.type = WORK_FORMATTED;
-    item.data.formatted = strdup(buffer);
+    item.data.formatted = formatted;
     if (!item.data.formatted) {
         fprintf(stderr, "Error: Out of memory duplicating formatted string\n");
         exit(1);
